@@ -182,6 +182,32 @@ theorem stepNs_upd {w : World} {n : Nat} {s : NS} (hs : w.nss[n]? = some s) (op 
     cases r with
     | none => intro B _; exact upd_setNs hs (key B)
     | some e => intro B _; exact upd_setNs hs (key B)
+  | rmlf n' c l fixed =>
+    simp only [stepNs]
+    cases s.lookupFirst w.lab c l with
+    | none => intro B _; exact upd_refl _ _
+    | some t =>
+      simp only
+      cases fixed with
+      | false => intro B _; exact upd_refl _ _
+      | true =>
+        simp only [if_true]
+        cases h : s.removeTaxon t with
+        | error e => intro B _; exact upd_refl _ _
+        | ok s' => intro B _; exact upd_setNs hs (.single (.rm t rfl h))
+  | dlf n' c l fixed =>
+    simp only [stepNs]
+    cases s.lookupFirst w.lab c l with
+    | none => intro B _; exact upd_refl _ _
+    | some t =>
+      simp only
+      cases fixed with
+      | false => intro B _; exact upd_refl _ _
+      | true =>
+        simp only [if_true]
+        cases h : s.removeTaxon t with
+        | error e => intro B _; exact upd_refl _ _
+        | ok s' => intro B _; exact upd_setNs hs (.single (.rm t rfl h))
   | sort n' rev => intro B _; exact upd_setNs hs (.single (.perm _ (sortBy_perm _ _ _)))
   | rev n' => intro B _; exact upd_setNs hs (.single (.perm _ (List.reverse_perm _)))
   | clear n' => intro B _; exact upd_setNs hs (.single (.clear rfl))
